@@ -250,9 +250,72 @@ def index_helpers(U, rep, tier):
             construct='every link-type string of length <= %d x %d type queries (%d instances)' % (maxlen, len(queries), n))
 
 
+class _HintsOnly:
+  def __init__(self, rep):
+    self.rep = rep
+
+  def ok(self, *a, **k):
+    pass
+
+  def fail(self, rule, key, message, **k):
+    self.rep.note('hint %s [%s]: %s' % (rule, key, message))
+
+  def check(self, cond, rule, key, message, **k):
+    if not cond:
+      self.fail(rule, key, message() if callable(message) else message)
+
+  def note(self, m):
+    self.rep.note(m)
+
+  def stat(self, *a):
+    pass
+
+
+def r14_1_semantic(U, rep):
+  """R14.1 on values: pipeline.init of each native pipeline is EXECUTED (random interpretation) on a small symbolic system
+  that carries a marker object as sys.mj_model, with mjcf.validate_model replaced by a recorder: the recorder must have been
+  called with exactly that marker -- however the call is reached (inline, through a helper, before or after other work).  With
+  mj_model None nothing is validated and init still returns."""
+  from braxlint import avn
+  from braxlint.avn import fn, HostObj
+  from braxlint.props import c05
+
+  class Marker(HostObj):
+    pass
+  links = [dict(parent=-1, joints=('f',)), dict(parent=0, joints=('h',))]
+  for b in NATIVE:
+    f = U.func('brax.%s.pipeline.init' % b)
+    for with_model in (True, False):
+      def body():
+        M, sysd, tau = c05.build(links, limits=False)
+        marker = Marker() if with_model else None
+        sysd.f['mj_model'] = marker
+        I = c05.new_interp(U.repo, reset=False)
+        seen = []
+        I.contracts[('brax.io.mjcf', 'validate_model')] = lambda mj: seen.append(mj)
+        I.contracts[('brax.contact', 'get')] = lambda s_, x: None
+        I.apply(fn('brax.%s.pipeline' % b, 'init'), [sysd, M.q, M.qd], {})
+        return seen, marker
+      try:
+        seen, marker = c05.trial(4200, body)
+      except avn.OutOfFragment as e:
+        rep.note('R14.1 [%s.pipeline.init] undecided on values (%s): the path rule decides' % (b, e))
+        r14_1(U, rep)
+        return
+      if with_model:
+        rep.check(len(seen) >= 1 and all(x is marker for x in seen), 'R14.1', '%s.pipeline.init validates the model it is given' % b,
+                  'init of the %s pipeline returns without having called mjcf.validate_model on sys.mj_model (called with: %s)' % (
+                      b, [type(x).__name__ for x in seen] or 'nothing'), where=f.where(),
+                  construct='sys.mj_model = <marker>; mjcf.validate_model recorded')
+      else:
+        rep.check(seen == [], 'R14.1', '%s.pipeline.init with mj_model None validates nothing and returns' % b,
+                  'init validates something although sys.mj_model is None', where=f.where())
+  r14_1(U, _HintsOnly(rep))
+
+
 def run(U, rep, tier):
   index_helpers(U, rep, tier)
-  r14_1(U, rep)
+  r14_1_semantic(U, rep)
   r14_2(U, rep)
   r14_4_tables(U, rep)
   r14_4_fields(U, rep)
